@@ -123,6 +123,7 @@ func ownDUID(typeArg string, mac []byte) []byte {
 func ExecSid(c SidCase) (res core.Result) {
 	defer func() {
 		if r := recover(); r != nil {
+			core.HarnessPanic(r)
 			res = core.Result{Viol: core.Violate("C14/panic", "server_id handler panicked: %v", r)}
 		}
 	}()
